@@ -82,3 +82,22 @@ def action_command(doc):
         ok = isinstance(res, ps.Killed) and res.msg == command.msg
         return None if ok else f'Kill mapped to {res!r}'
     return None
+
+
+def waiting_resume(doc):
+    """Waiting.resume(value) on a freshly armed waiting state: the first resume must record exactly `value`"""
+    from plumpy import process_states as ps
+    from plumpy.lang import NULL
+
+    inp = _inputs(doc)
+    proc = _dummy_process()
+    bad = []
+    cands = [_plain(inp.get('value'))] if 'value' in inp else []
+    for value in cands + [None, 0, '', NULL]:
+        st = ps.Waiting(proc, proc.nxt)
+        st.resume(value)
+        got = st._waiting_future.result()
+        if got is not value and not (value is NULL and got == NULL):
+            bad.append(f'resume({value!r}) recorded {got!r}')
+            break
+    return '; '.join(bad)
